@@ -55,7 +55,7 @@ def _drive(job):
 def _fit(job):
     n, pattern, vtype, trunc, seed = job
     rs = np.random.RandomState(seed)
-    df = V.random_table(rs, n, pattern)
+    df = V.random_table(rs, n, pattern, nrow=1100 if seed % 53 == 7 else None)      # now and then a table of more than 1000 rows
     rec = {'n': n, 'vtype': vtype, 'trunc': trunc, 'trees': [], 'w': [], 'admissible': [], 'err': '',
            'src': 'fit:' + pattern}
     try:
